@@ -128,7 +128,12 @@ def plan(exp, tier):
     u.take_impl(P, hdr, {'from': C(ensures=['res.min.x == aabb.min.x', 'res.min.y == aabb.min.y', 'res.max.x == aabb.max.x',
                                             'res.max.y == aabb.max.y'])}, mode='G')
     p.add_unit('c13', u, ['ops', 'vec', 'geom'])
+    import kani_driver
+    p.kani = kani_driver.load_specs('c13')
+    for sp in p.kani:
+        if sp.get('bounded'):
+            p.bounded.append('%s: %s' % (sp['harness'], sp['bounded']))
     p.assumptions += ['Aabr/Aabb::is_valid (partial_cmple through the AsRef trait, which vstd does not specify) is assumed in Verus '
-                      '(res == all min <= max); its real body is to be discharged by Kani']
+                      '(res == all min <= max); its real body is proved by Kani for i8 elements (c13_is_valid_*)']
     p.not_decided += ['map / as_ on boxes and rectangles (casts: C20)', 'Rect split_at_* (array of converted halves) and the in-place Rect forms']
     return p
